@@ -70,7 +70,9 @@ static inline struct vec_u8 vec_u8_move(struct vec_u8 *o)
 /* resize(n): keeps min(old,n) leading elements, appends value-initialised (zero) elements.
  * The model always hands out a new buffer (the old one stays allocated and unchanged, nothing is freed). */
 void vec_u8_resize(struct vec_u8 *v, size_t n)
-__CPROVER_requires(__CPROVER_rw_ok(v, sizeof(*v)) && v->n <= VEC_MAX && __CPROVER_r_ok(v->d, v->n))
+__CPROVER_requires(__CPROVER_rw_ok(v, sizeof(*v)))
+__CPROVER_requires(v->n <= VEC_MAX)
+__CPROVER_requires(v->n == 0 || __CPROVER_r_ok(v->d, v->n))
 __CPROVER_requires(n <= VEC_MAX)
 __CPROVER_ensures(v->n == n)
 __CPROVER_ensures(__CPROVER_is_fresh(v->d, n))
@@ -87,7 +89,9 @@ __CPROVER_assigns(v->d, v->n)
 
 /* resize(n, val) */
 void vec_u8_resize_val(struct vec_u8 *v, size_t n, uint8_t val)
-__CPROVER_requires(__CPROVER_rw_ok(v, sizeof(*v)) && v->n <= VEC_MAX && __CPROVER_r_ok(v->d, v->n))
+__CPROVER_requires(__CPROVER_rw_ok(v, sizeof(*v)))
+__CPROVER_requires(v->n <= VEC_MAX)
+__CPROVER_requires(v->n == 0 || __CPROVER_r_ok(v->d, v->n))
 __CPROVER_requires(n <= VEC_MAX)
 __CPROVER_ensures(v->n == n)
 __CPROVER_ensures(__CPROVER_is_fresh(v->d, n))
